@@ -54,6 +54,8 @@ def stmts(n, ctx):
             out.append(('callst', f, (), True))
         if ext:
             out.append(('callst', 'f', (), False))
+            # a row/column command: its code ends in `END matrix`, the other user of the END op-code
+            out.append(('act', 'set', (('matrix', ('str', 'm'), (('num', 0), None), None),)))
         return tuple(out)
     if depth >= 4:
         return ()
